@@ -37,27 +37,27 @@ Definition resolve_pin_skel (matched : bool) : res unit :=
   if (n <? 2)%nat then Ok tt else
   do _ <- vidx n 1; do _ <- vidx n 4; do _ <- vidx n 6; do _ <- vidx n 3; Ok tt.
 
-(* install.go installAPKFiles / the lazy variant:
-   !startedDataSection && header.Name[0] == '.' && !strings.Contains(header.Name, "/") *)
+(* install.go installAPKFiles / the lazy variant, after fix 6e06851:
+   !startedDataSection && strings.HasPrefix(header.Name, ".") && !strings.Contains(header.Name, "/")
+   (before the fix: header.Name[0] == '.', a panic on an entry with an empty name) *)
 Definition install_hidden_test (started : bool) (name : string) : res bool :=
-  if started then Ok false else
-  do c <- gindex name 0;
-  Ok (Ascii.eqb c "." && negb (has_char "/" name)).
+  if started then Ok false else Ok (has_prefix "." name && negb (has_char "/" name)).
 
-(* fs/rwosfs.go standardizePath *)
+(* fs/rwosfs.go standardizePath, after fix 5614ee6: strings.TrimPrefix(p, "/")
+   (before the fix: p[0] on the empty path) *)
 Definition standardize_path (p : string) : res string :=
-  do c <- gindex p 0;
-  if Ascii.eqb c "/" then gslice_from p 1 else Ok p.
+  Ok (if has_prefix "/" p then sdrop 1 p else p).
 
 (* implementation.go cachedPackage: HasPrefix(chk, "Q1") then chk[2:] *)
 Definition cached_package_slice (chk : string) : res string :=
   if negb (has_prefix "Q1" chk) then Err else gslice_from chk 2.
 
-(* build/layers.go groupByOriginAndSize: make([]*group, 0, budget); the budget
-   comes from the image configuration and is not validated. makeslice panics on
-   a negative capacity and above maxAlloc/8 (2^45 pointers on linux/amd64). *)
+(* build/layers.go, after fix d47e591: buildLayers rejects a negative budget and
+   groupByOriginAndSize sizes its slice by len(byOrigin), no longer by the budget
+   (before the fix: make([]*group, 0, budget) panicked on a negative or huge budget
+   taken unvalidated from the image configuration) *)
 Definition make_groups (budget : Z) : res unit :=
-  if (budget <? 0)%Z || (35184372088832 <? budget)%Z then Panic else Ok tt.
+  if (budget <? 0)%Z then Err else Ok tt.
 
 (* outcome classes compared with the implementation *)
 Inductive rclass := CkOk | CkErr | CkPanic | CkHang.
